@@ -17,6 +17,10 @@ type gram struct {
 }
 
 func (g *gram) val(v string) string {
+	if strings.Contains(v, "://") && g.r.Chance(0.3) {
+		// URLs with escaped octets and other percent sequences
+		v += vlib.Pick(g.r, []string{"?next=%2Fhome", "/a%20b", "/%E2%9C%93", "?q=100%", "?t=%s&n=%d", "/%25"})
+	}
 	needs := strings.ContainsAny(v, " \t{}\"#") || v == ""
 	if needs || g.r.Chance(0.3) {
 		return `"` + strings.NewReplacer(`\`, `\\`, `"`, `\"`).Replace(v) + `"`
